@@ -49,6 +49,27 @@ func ZZ_C01_D1() {
 	ha, _, _ = la.Commit()
 	hb, _, _ = lb.Commit()
 	zzverif.Assert(zzverif.SameBytes(ha, hb), "D1 same root hash after updates / removal / re-creation")
+	if zzverif.Choose("third.block", 2) == 1 {
+		// grow the tree one item per block (one dirty key per commit), then remove
+		// two items in one block: the removals reach the tree in call order
+		// (5 items: in the real IAVL the shape after removing these pairs depends on the order)
+		for k := n; k < 5; k++ {
+			for _, l := range []*FinalityLedger[*zzItem]{la, lb} {
+				_ = l.SetFinality(&zzItem{K: byte(k), V: int64(k)})
+				_, _, _ = l.Commit()
+			}
+		}
+		pairs := [][2]int{{0, 3}, {0, 4}, {1, 3}, {1, 4}}
+		pr := pairs[zzverif.Choose("remove.pair", len(pairs))]
+		for _, l := range []*FinalityLedger[*zzItem]{la, lb} {
+			_, _ = l.DelFinality(zzKey(pr[0]))
+			_, _ = l.DelFinality(zzKey(pr[1]))
+		}
+		ha, _, _ = la.Commit()
+		hb, _, _ = lb.Commit()
+		zzverif.Assert(zzverif.SameBytes(ha, hb), "D1 same root hash after two removals in one block")
+		zzverif.Reach("D1 two removals")
+	}
 	zzverif.Reach("D1 end")
 }
 
